@@ -600,6 +600,25 @@ theorem find_buildRemote (ign : Bool) (sys : System) (p : Nat) (order : List Nat
       · simp [h2, hpn]
     · simp [hk]
 
+/-- the result does not depend on the order in which the neighbours' messages are processed -/
+theorem buildRemote_perm (ign : Bool) (sys : System) (p : Nat) (o₁ o₂ : List Nat) (h : o₁.Perm o₂) :
+    buildRemote ign sys p o₁ = buildRemote ign sys p o₂ := by
+  rw [buildRemote_eq, buildRemote_eq]
+  split
+  · rfl
+  · unfold receiveAll
+    have s1 := foldAdd_spec (fun q => fromRank ign sys p q false) (sources sys p o₁) _ (sorted_selfPart ign sys p)
+    have s2 := foldAdd_spec (fun q => fromRank ign sys p q false) (sources sys p o₂) _ (sorted_selfPart ign sys p)
+    apply RMap.ext s1.1 s2.1
+    intro k
+    rw [s1.2 k, s2.2 k]
+    have : k ∈ sources sys p o₁ ↔ k ∈ sources sys p o₂ := by
+      unfold sources
+      split
+      · exact Iff.rfl
+      · exact h.mem_iff
+    simp only [this]
+
 /-! ## Part 6: further facts -/
 
 theorem strictG_inj {S : List Pair} (h : StrictG S) {x y : Pair} (hx : x ∈ S) (hy : y ∈ S) (e : x.g = y.g) : x = y := by
